@@ -230,11 +230,11 @@ def run(ctx):
     ctx.ob('T17', guc.fq, 'uncommon = total - common by construction (value returned on every path)', ok, loc=guc.loc, detail=det)
     # update: every element of every source reaches add(); keyword counts (when present) are fed back through update
     n_add = 0
-    w, paths = paths_of(prog, up, recv=ci)
+    w, paths = paths_of(prog, up, recv=ci, model=Inl(prog))       # element loops may live in private helpers
     for p in paths:
         if p.kind != 'return':
             continue
-        iters = [o for o in p.ops if o.kind == 'iter_next' and o.info is not False and o.depth == 0]
+        iters = [o for o in p.ops if o.kind == 'iter_next' and o.info is not False]
         bounds = [o.seq for o in iters] + [10 ** 9]
         # innermost element steps: an iteration step that is not followed by a nested iteration start before the next step
         for a, b in zip(bounds, bounds[1:]):
